@@ -341,15 +341,22 @@ func (p *Choices) CheckConflicts(conflict func(firsts [][]any, i, at int)) {
 	options := p.options
 	n := len(options)
 	firsts := make([][]any, n)
+	mayEmpty := make([]bool, n)
 	for i, g := range options {
-		firsts[i], _ = g.First(nil)
+		firsts[i], mayEmpty[i] = g.First(nil)
+	}
+	// laterEmpty[i]: some option after i can match without consuming a token,
+	// so the choice can still succeed after option i consumed tokens and failed
+	laterEmpty := make([]bool, n)
+	for i := n - 2; i >= 0; i-- {
+		laterEmpty[i] = laterEmpty[i+1] || mayEmpty[i+1]
 	}
 	stops := make([]bool, n)
 	for i, me := range firsts {
 		at := conflictWith(me, firsts, i+1)
 		if at >= 0 {
 			conflict(firsts, i, at)
-		} else {
+		} else if !laterEmpty[i] {
 			stops[i] = true
 		}
 	}
